@@ -125,6 +125,9 @@ func FuzzDecode(f *testing.F) {
 		if res.Err != "" {
 			t.Skip(res.Err)
 		}
+		if harnessOutcome(res) != nil {
+			t.Skip(res.Died) // unjudgeable (overloaded machine, child killed from outside): never a crasher
+		}
 		rec := &h.Rec{}
 		if err := judgeDamaged(c.T, fmt.Sprintf("%s, %d raw bytes", c.T, len(data)), res, rec); err != nil {
 			t.Fatalf("%v", err)
@@ -251,10 +254,16 @@ func runNativeFuzz(t *testing.T) {
 		return
 	}
 	c := FuzzCase{T: regNames[int(idx)%len(regNames)], Data: data, Reader: "buffer"}
-	key, msg := "C08:fuzz:crasher", lastLines(string(out), 12)
-	if ferr, ok := runFuzzCase(c, &h.Rec{}).(*h.Failure); ok {
-		key, msg = ferr.Key, ferr.Msg
+	// only a saved crasher whose semantic failure reproduces here is a violation; a worker that was killed or timed
+	// out by the fuzz engine (overloaded machine) leaves a "crasher" that passes on re-execution
+	ferr, ok := runFuzzCase(c, &h.Rec{}).(*h.Failure)
+	if !ok || strings.HasPrefix(ferr.Key, "C08:harness") {
+		_ = os.Remove(crasher)
+		h.SetExtra("TestPropNativeFuzz", "native_fuzz_inconclusive", "the fuzz engine saved an input that does not reproduce a failure: "+lastLines(string(out), 6))
+		t.Logf("native fuzzing: saved input does not reproduce (inconclusive)\n%s", lastLines(string(out), 20))
+		return
 	}
+	key, msg := ferr.Key, ferr.Msg
 	cj, _ := json.Marshal(c)
 	rec := map[string]any{"property": "C08", "prop": "TestPropNativeFuzz", "key": key, "msg": msg, "case": json.RawMessage(cj)}
 	b, _ := json.MarshalIndent(rec, "", " ")
